@@ -10,7 +10,8 @@ ID = "C16"
 LEVEL = "exploration"
 DESIGN_REF = "DESIGN.md §4 C16"
 RULE = (
-    "A case = (schema spec of depth <= 3 quick / 4 thorough and width <= 6 with identifier keys, a prefix history "
+    "A case = (schema spec of depth <= 3 quick / 4 thorough and width <= 6 with identifier keys and an include field "
+    "in every schema, a prefix history "
     "that puts the configuration into an arbitrary state, assignments addressed through enumerated paths, a command "
     "line = generated subset of the generated parser's options in --opt=value form with valid and invalid values "
     "(including the empty command line), and an ignore argument: None, one name or a list). Oracle: for every "
@@ -30,7 +31,7 @@ ASSUMPTIONS = [
     "fields inside config types are not enumerated by get_all_fields and are outside this property's path set",
 ]
 REQUIRED = ["cmdline:empty", "cmdline:subset", "ignore:none", "ignore:one", "ignore:list", "has:bool", "depth>=2",
-            "arg:invalid", "arg:valid", "setitem-vs-setattr"]
+            "arg:invalid", "arg:valid", "setitem-vs-setattr", "has:include"]
 LEVEL_TEXT = (
     "Generated schemas, states and command lines; agreement of the naming routes is checked pairwise and the "
     "override against a reference model; kills mutants that ignore 'ignore', build dest with '-', or drop a prefix."
@@ -111,6 +112,15 @@ def _underscore_keys(node):
     return dict(node, children=kids)
 
 
+def _with_includes(node, top=True):
+    """An include field (a scalar string field like any other) at the root and in every nested schema."""
+    inc = {"kind": "include", "key": "inc" if top else "include", "req": False, "validator": None, "opts": {"startdir": "$ROOT/fs"}, "default": {"mode": "none"}}
+    kids = [_with_includes(c, False) if c["kind"] == "schema" else c for c in node["children"]]
+    if inc["key"] not in {c["key"] for c in kids}:
+        kids.append(inc)
+    return dict(node, children=kids)
+
+
 def strategy(tier):
     depth = 3 if tier == "quick" else 4
 
@@ -145,7 +155,7 @@ def strategy(tier):
     kinds = ["str", "int", "float", "port", "bool", "bool", "host", "loglevel", "appmode", "secure", "list", "dict", "bytes", "any",
              "challenge", "ipv4", "ipv4net", "url", "filename"]
     return worlds.schema_spec(tier, kinds=kinds, depth=depth, width=4 if tier == "quick" else 6, min_width=2,
-                              allow=("schema", "schema", "schema", "configtype", "schemalist", "virtual", "method", "featureflag")).map(_underscore_keys).map(_echo_keys).flatmap(build)
+                              allow=("schema", "schema", "schema", "configtype", "schemalist", "virtual", "method", "featureflag")).map(_with_includes).map(_underscore_keys).map(_echo_keys).flatmap(build)
 
 
 def _option(path):
@@ -233,6 +243,8 @@ def run_case(case, R):
         expected = {}
         for path, node in fields:
             dotted = ".".join(path)
+            if node["kind"] == "include":
+                R.label("has:include")
             if STYPE[node["kind"]] is bool:
                 R.label("has:bool")
                 expected[(_option(path),)] = (dotted, "store_true")
